@@ -30,7 +30,7 @@ func TestMain(m *testing.M) { pt.Main(m, false) }
 var acceptable = map[string][]string{
 	// (the gateway's action set has no s3:DeleteObjectVersion - a policy naming it is refused as malformed - so a
 	// delete by version id is governed by s3:DeleteObject)
-	"GetObjectNullVersion": {"s3:GetObjectVersion"}, "DeleteObjectNullVersion": {"s3:DeleteObject"},
+	"GetObjectNullVersion": {"s3:GetObjectVersion"}, "HeadObjectNullVersion": {"s3:GetObjectVersion"}, "DeleteObjectNullVersion": {"s3:DeleteObject"},
 	"DeleteBucket": {"s3:DeleteBucket"}, "HeadBucket": {"s3:ListBucket"}, "ListObjects": {"s3:ListBucket"}, "ListObjectsV2": {"s3:ListBucket"},
 	"ListObjectVersions": {"s3:ListBucketVersions", "s3:ListBucket"}, "ListMultipartUploads": {"s3:ListBucketMultipartUploads"},
 	"GetBucketTagging": {"s3:GetBucketTagging"}, "PutBucketTagging": {"s3:PutBucketTagging"}, "DeleteBucketTagging": {"s3:PutBucketTagging"},
@@ -260,18 +260,24 @@ func execA(c caseA) (v verdict, err error) {
 		if r := rootc.MustCall("PUT", "/"+bktA, s3c.Q("ownershipControls", ""), nil, []byte(`<OwnershipControls><Rule><ObjectOwnership>BucketOwnerPreferred</ObjectOwnership></Rule></OwnershipControls>`)); !r.OK() {
 			return v, fmt.Errorf("SETUP: ownership controls: %v", r)
 		}
+		// The gateway's grant headers take a comma-separated list of account ids as they are (no id="..." wrapping);
+		// grants to everybody exist as canned ACLs only (generated cases are normalised accordingly, see genCase).
 		var h []s3c.KV
-		for perm, ids := range c.Grants {
-			var parts []string
-			for _, id := range ids {
-				if id == "*" {
-					parts = append(parts, `uri="http://acs.amazonaws.com/groups/global/AllUsers"`)
-				} else {
-					parts = append(parts, "id="+id)
-				}
+		switch {
+		case len(c.Grants["WRITE"]) == 1 && c.Grants["WRITE"][0] == "*":
+			h = []s3c.KV{{K: "x-amz-acl", V: "public-read-write"}}
+		case len(c.Grants["READ"]) == 1 && c.Grants["READ"][0] == "*":
+			h = []s3c.KV{{K: "x-amz-acl", V: "public-read"}}
+		default:
+			perms := make([]string, 0, len(c.Grants))
+			for perm := range c.Grants {
+				perms = append(perms, perm)
 			}
-			if len(parts) > 0 {
-				h = append(h, s3c.KV{K: grantHeader[perm], V: strings.Join(parts, ",")})
+			sort.Strings(perms)
+			for _, perm := range perms {
+				if len(c.Grants[perm]) > 0 {
+					h = append(h, s3c.KV{K: grantHeader[perm], V: strings.Join(c.Grants[perm], ",")})
+				}
 			}
 		}
 		if len(h) > 0 {
@@ -450,12 +456,27 @@ func genCase(t *rapid.T) caseA {
 				c.Grants[p] = rapid.SliceOfNDistinct(rapid.SampledFrom([]string{"bob", "carol", "*"}), 1, 2, rapid.ID[string]).Draw(t, "ids_"+p)
 			}
 		}
+		// a grant to everybody can only be expressed as a canned ACL, which cannot be combined with explicit grants:
+		// such a case becomes public-read or public-read-write
+		star, starWrite := false, false
+		for p, ids := range c.Grants {
+			for _, id := range ids {
+				star = star || id == "*"
+				starWrite = starWrite || (id == "*" && (p == "WRITE" || p == "FULL_CONTROL"))
+			}
+		}
+		if star {
+			c.Grants = map[string][]string{"READ": {"*"}}
+			if starWrite {
+				c.Grants["WRITE"] = []string{"*"}
+			}
+		}
 	}
 	for {
 		c.Spec.Op = rapid.SampledFrom(cat.Names()).Draw(t, "op")
 		if rapid.IntRange(0, 9).Draw(t, "copy_bias") == 0 {
 			// the operations whose decision is about more than one object
-			c.Spec.Op = rapid.SampledFrom([]string{"CopyObject", "UploadPartCopy", "DeleteObjects", "GetObjectNullVersion", "DeleteObjectNullVersion"}).Draw(t, "copy_op")
+			c.Spec.Op = rapid.SampledFrom([]string{"CopyObject", "UploadPartCopy", "DeleteObjects", "GetObjectNullVersion", "HeadObjectNullVersion", "DeleteObjectNullVersion"}).Draw(t, "copy_op")
 		}
 		e := cat.Lookup(c.Spec.Op)
 		if e.Level != "service" && c.Spec.Op != "GetObjectVersion" && c.Spec.Op != "DeleteObjectVersion" {
